@@ -16,6 +16,18 @@ class TLCError(RuntimeError):
     pass
 
 
+def brief(out, n=1500):
+    """The informative part of a failed TLC run's output."""
+    lines = out.splitlines()
+    keep = [i for i, l in enumerate(lines) if "rror" in l or "***" in l or "Unknown operator" in l or "violated" in l]
+    if not keep:
+        return out[-n:]
+    sel = []
+    for i in keep[:6]:
+        sel += lines[max(0, i - 2):i + 8]
+    return "\n".join(dict.fromkeys(sel))[:n]
+
+
 class TLCResult(object):
     def __init__(self, rc, out, wall):
         self.rc = rc
